@@ -33,11 +33,17 @@ def run(v):
     tcov = run_cmdline_property(v, tfam, None, replay_cfg="MC_GroupLine_replay.cfg", module="MC_GroupLine", signature=cmdline_sig.signature,
                                 trace_module="GroupLineTrace", name="C07t")
     cov = merge_cov(cov, tcov, "alt_tie")
+    # a repeated choice between adjacent subcommands, some without items of their own
+    afam = D.acmd_alt_family(SEED + 792, 8 if q else 32, maxlen=4 if q else 5, budget=3000 if q else 30000)
+    acov = run_cmdline_property(v, afam, None, replay_cfg="MC_GroupLine_replay.cfg", module="MC_GroupLine", signature=cmdline_sig.signature,
+                                ledger_every=(3 if q else 1), trace_module="GroupLineTrace", name="C07a")
+    cov = merge_cov(cov, acov, "acmd_alt")
     cov["rule"] = ("choices over 2..4 branches drawn from {req_flag, argument, two-item groups with optional members} under "
                    "bare/optional/many/some, next to other options and positionals; all lines up to maxlen in every order; "
                    "AltExclusive and the greedy-leftmost denotation checked/used by TLC (GroupLine.tla); subcommand "
                    "alternatives are covered by the C08 families; the same choices inside a subcommand (TreeLine.tla); "
-                   "choices with a positional branch (the word goes to the choice only when it wins, otherwise to the positionals that follow)")
+                   "choices with a positional branch (the word goes to the choice only when it wins, otherwise to the positionals that follow); "
+                   "ties between defaulted branches, also through the `choice` function; repeated choices between adjacent subcommands")
     cov["exhaustive"] = True
     return v.finish("model_checking", cov, ["branches have disjoint names (the property's precondition)"])
 
